@@ -92,6 +92,7 @@ CHECKS = {
     },
     "C09": {
         "level": "exploration",
+        "fuzz": [{"target": "FuzzProp", "seconds": 120}],
         "quick": {"shards": 16, "rounds": 1, "checks": 2500, "timeout": 900},
         "thorough": {"shards": 16, "rounds": 7, "checks": 3000, "timeout": 3000},
         "assumptions": [
@@ -114,6 +115,7 @@ CHECKS = {
     },
     "C11": {
         "level": "exploration",
+        "fuzz": [{"target": "FuzzRoundTrip", "seconds": 90}, {"target": "FuzzCorrupt", "seconds": 90}],
         "quick": {"shards": 16, "rounds": 1, "checks": 600, "timeout": 900},
         "thorough": {"shards": 16, "rounds": 4, "checks": 1000, "timeout": 3000},
         "assumptions": [
